@@ -88,7 +88,8 @@ Proof.
   destruct (forallb is_bool l); [intros H; inversion H; reflexivity|].
   destruct (forallb is_str l); [intros H; inversion H; reflexivity|].
   destruct (forallb is_str_or_none l); [intros H; inversion H; apply map_length|].
-  destruct (forallb is_num_or_none l); [intros H; inversion H; apply map_length|].
+  destruct (forallb is_num_or_none l).
+  { destruct (existsb out_int64 l); [discriminate|]. intros H; inversion H; apply map_length. }
   destruct (forallb is_ts l); [intros H; inversion H; reflexivity|].
   destruct c0;
     try (match goal with |- (if ?b then _ else _) = _ -> _ => destruct b end; intros H; inversion H; reflexivity).
@@ -343,7 +344,8 @@ Proof.
   destruct (forallb is_str l); [intros H; inversion H; reflexivity|].
   destruct (forallb is_str_or_none l); [intros H; inversion H; apply none_to_nan_id; assumption|].
   destruct (forallb is_num_or_none l) eqn:E3.
-  { intros H; inversion H. apply to_float_cell_id; [assumption|].
+  { destruct (existsb out_int64 l); [discriminate|].
+    intros H; inversion H. apply to_float_cell_id; [assumption|].
     destruct (existsb is_int l) eqn:E4; [|reflexivity].
     destruct (existsb is_flt l) eqn:E5; [rewrite andb_true_r in S2; discriminate|].
     rewrite (all_num_no_flt_int l E3 S1 E5) in E2. discriminate. }
@@ -515,7 +517,8 @@ Lemma pd_infer_cases l : l <> [] ->
   (forallb is_none l = false -> forallb is_int l = false -> forallb is_bool l = false -> forallb is_str l = false ->
      forallb is_str_or_none l = true -> pd_infer l = Some (PStrDt, map none_to_nan l)) /\
   (forallb is_none l = false -> forallb is_int l = false -> forallb is_bool l = false -> forallb is_str l = false ->
-     forallb is_str_or_none l = false -> forallb is_num_or_none l = true -> pd_infer l = Some (PFloat64, map to_float_cell l)).
+     forallb is_str_or_none l = false -> forallb is_num_or_none l = true -> existsb out_int64 l = false ->
+     pd_infer l = Some (PFloat64, map to_float_cell l)).
 Proof.
   intros Hne. destruct l as [|c0 r]; [contradiction|]. unfold pd_infer. set (l := c0 :: r).
   repeat split.
@@ -523,7 +526,7 @@ Proof.
   - intros -> ->. destruct (forallb cell_int64 l); [|destruct (forallb cell_uint64 l)]; eexists; reflexivity.
   - intros -> -> -> ->. reflexivity.
   - intros -> -> -> -> ->. reflexivity.
-  - intros -> -> -> -> -> ->. reflexivity.
+  - intros -> -> -> -> -> -> ->. reflexivity.
 Qed.
 
 Lemma type_of_value_value t : type_of_value (type_value t) = Some t.
@@ -593,11 +596,16 @@ Definition enc_idx (o : option pidx) : cell := match o with Some (IInt z) => CIn
 
 Lemma idx_cells_enc os : forallb idx_ok os = true -> idx_cells os = Some (map enc_idx os).
 Proof.
-  unfold idx_cells. generalize (existsb is_None os). intros b. induction os as [|o r IH]; [reflexivity|].
+  unfold idx_cells. induction os as [|o r IH]; [reflexivity|].
   cbn [forallb map all_some]. intros H. apply andb_true_iff in H as [H1 H2].
-  destruct o as [[z|s]|]; cbn [idx_ok] in H1; try discriminate; cbn [cell_of_oidx enc_idx].
-  - rewrite H1. cbn [negb]. rewrite andb_false_r. rewrite (IH H2). reflexivity.
-  - rewrite (IH H2). reflexivity.
+  destruct o as [[z|s]|]; cbn [idx_ok] in H1; try discriminate; cbn [cell_of_oidx enc_idx]; rewrite (IH H2); reflexivity.
+Qed.
+
+Lemma enc_no_big os : forallb idx_ok os = true -> existsb out_int64 (map enc_idx os) = false.
+Proof.
+  induction os as [|o r IH]; [reflexivity|]. cbn [forallb map existsb]. intros H. apply andb_true_iff in H as [H1 H2].
+  rewrite (IH H2), orb_false_r. destruct o as [[z|s]|]; cbn [idx_ok] in H1; try discriminate; cbn [enc_idx out_int64]; [|reflexivity].
+  rewrite H1. reflexivity.
 Qed.
 
 Lemma conv_enc os : forallb idx_ok os = true -> map convert_to_int_or_none (map enc_idx os) = map TOk os.
@@ -656,7 +664,7 @@ Proof.
   assert (Eo : forallb is_str_or_none l = false).
   { destruct (forallb is_str_or_none l) eqn:E; [|reflexivity]. subst l. rewrite (enc_str_or_none _ E) in E1. discriminate. }
   assert (En : forallb is_num_or_none l = true) by (subst l; apply enc_num_or_none; assumption).
-  rewrite (C5 eq_refl eq_refl Eb Es Eo En). eexists; eexists; split; [reflexivity|split; [reflexivity|]].
+  rewrite (C5 eq_refl eq_refl Eb Es Eo En (enc_no_big _ Hok)). eexists; eexists; split; [reflexivity|split; [reflexivity|]].
   subst l. apply conv_enc_float; [assumption|].
   destruct (existsb is_None (o :: r)) eqn:EN.
   - cbn [negb orb] in Hex. assumption.
@@ -909,4 +917,217 @@ Proof.
       - apply String.eqb_eq in E. subst. reflexivity.
       - destruct Hin as [->|Hin]; [rewrite String.eqb_refl in E; discriminate|]. apply IH; assumption. }
     rewrite (G (fnames m) Hk), Hts, Hd. reflexivity.
+Qed.
+
+Lemma linker_tables_full st it ii l (ix : fmodel -> pindex) :
+  NoDup (map fst (lsubs l)) -> ~ In (lname l) (map fst (lsubs l)) ->
+  (forall m, m = lmodel l \/ In m (map snd (lsubs l)) ->
+             wf_model m (length (splabels (fspan m))) /\ pd_index (fspan m) = Some (ix m)) ->
+  linker_to_tables st it ii l
+  = TOk ((lname l, mkTable (ix (lmodel l)) (export_cols st it ii (lmodel l)))
+         :: map (fun km => (fst km, mkTable (ix (snd km)) (export_cols st it ii (snd km)))) (lsubs l))
+  /\ (forall m, m = lmodel l \/ In m (map snd (lsubs l)) ->
+                model_to_table st it ii m = TOk (mkTable (ix m) (export_cols st it ii m))).
+Proof.
+  intros Hnd Hn Hall. split; [apply linker_tables; assumption|].
+  intros m Hm. destruct (Hall m Hm) as [W H]. apply model_to_table_spec; assumption.
+Qed.
+
+(* ------------------------------------------------------------------ from_dataframe with a cast that is not the identity *)
+Lemma cast_all_map d (g : cell -> cell) cs : Forall (fun c => np_cast d c = TOk (g c)) cs -> cast_all d cs = TOk (map g cs).
+Proof.
+  induction 1 as [|c r Hc Hr IH]; [reflexivity|]. cbn [cast_all map]. rewrite Hc. cbn [tbind]. rewrite IH. reflexivity.
+Qed.
+
+Lemma init_vars_map c n cols (f : string -> series) (g : cell -> cell) names :
+  (forall k, In k names -> k <> "status" /\ k <> "iterations") ->
+  (forall k, In k names -> find_col k cols = Some (col_of (k, f k))) ->
+  (forall k, In k names -> sdt (f k) <> NObj /\ Forall (fun x => np_cast (cdtype c) x = TOk (g x)) (scells (f k))) ->
+  init_vars c n cols names = TOk (map (fun k => (k, mkSeries (cdtype c) (map g (scells (f k))))) names).
+Proof.
+  induction names as [|k r IH]; intros Hn Hf Hc; [reflexivity|]. cbn [init_vars map].
+  destruct (Hn k (or_introl eq_refl)) as [N1 N2].
+  assert (E : mem_s k ["status"; "iterations"] = false).
+  { apply mem_s_false. intros [H|[H|[]]]; congruence. }
+  rewrite E, (Hf k (or_introl eq_refl)).
+  destruct (Hc k (or_introl eq_refl)) as [T C].
+  unfold col_values. rewrite (col_of_typed k (f k) T). cbn [pccells].
+  rewrite (cast_all_map _ g _ C). cbn [tbind].
+  rewrite IH; [reflexivity| | |]; intros k' Hk'; [apply Hn|apply Hf|apply Hc]; right; assumption.
+Qed.
+
+Lemma from_to_map st it ii m ix c (g : cell -> cell) :
+  wf_model m (length (splabels (fspan m))) ->
+  cnames c = fnames m ->
+  export_names ii m = fnames m ->
+  (cstrict c = true -> st = false /\ it = false) ->
+  (forall k, In k (fnames m) -> mem_s k init_params = false) ->
+  (forall k, In k (fnames m) ->
+     sdt (the_series m k) <> NObj /\ Forall (fun x => np_cast (cdtype c) x = TOk (g x)) (scells (the_series m k))) ->
+  from_table c (mkTable ix (export_cols st it ii m))
+  = TOk (fresh_model (span_of_index ix) (fnames m)
+           (map (fun k => (k, mkSeries (cdtype c) (map g (scells (the_series m k))))) (fnames m)) (length (ilabels ix))).
+Proof.
+  intros W Hc Hall Hstrict Hparams Htyped. unfold from_table. cbn [tcols tindex].
+  assert (E1 : existsb (fun col => mem_s (pcname col) init_params) (export_cols st it ii m) = false).
+  { rewrite (existsb_pcname (fun k => mem_s k init_params)), export_cols_names, Hall.
+    apply existsb_false_iff. intros x Hx. apply in_app_or in Hx as [Hx|Hx]; [apply Hparams; assumption|].
+    apply in_app_or in Hx as [Hx|Hx].
+    - destruct st; [|destruct Hx]. destruct Hx as [<-|[]]. reflexivity.
+    - destruct it; [|destruct Hx]. destruct Hx as [<-|[]]. reflexivity. }
+  rewrite E1. rewrite Hc, (has_dup_false _ (wf_nodup _ _ W)).
+  assert (E2 : cstrict c && existsb (fun col => negb (mem_s (pcname col) (fnames m))) (export_cols st it ii m) = false).
+  { destruct (cstrict c) eqn:S; [|reflexivity]. destruct (Hstrict eq_refl) as [-> ->]. cbn [andb].
+    rewrite (existsb_pcname (fun k => negb (mem_s k (fnames m)))), export_cols_names, Hall. cbn [app]. rewrite app_nil_r.
+    apply existsb_false_iff. intros x Hx. apply negb_false_iff. apply mem_s_In. assumption. }
+  rewrite E2.
+  rewrite (init_vars_map c _ _ (the_series m) g).
+  - reflexivity.
+  - intros k Hk. split; intros ->; [apply (wf_nostatus _ _ W Hk)|apply (wf_noiter _ _ W Hk)].
+  - intros k Hk. apply export_cols_var. rewrite Hall. assumption.
+  - assumption.
+Qed.
+
+(* the class default dtype float applied to float / int / bool series: exact while |int| <= 2^53 *)
+Definition float_exact (c : cell) : bool :=
+  match c with CFlt _ | CBool _ => true | CInt z => Z.abs z <=? two53 | _ => false end.
+Definition to_float_exact (c : cell) : cell :=
+  match c with CInt z => CFlt (FInt z) | CBool b => CFlt (FInt (if b then 1 else 0)) | _ => c end.
+
+Lemma np_cast_float_exact c : float_exact c = true -> np_cast NFloat c = TOk (to_float_exact c).
+Proof.
+  destruct c; cbn [float_exact np_cast to_float_exact]; intros H; try discriminate; try reflexivity.
+  assert (I : in_int64 z = true).
+  { unfold in_int64, int64_min, int64_max. apply Z.leb_le in H. unfold two53 in H. apply andb_true_iff. split; apply Z.leb_le; lia. }
+  rewrite I. unfold f64_of_Z. rewrite (rne53_small z H). reflexivity.
+Qed.
+
+Lemma from_to_default_float st it ii m ix c :
+  wf_model m (length (splabels (fspan m))) -> pd_index (fspan m) = Some ix -> span_stable (fspan m) = true ->
+  cnames c = fnames m -> cdtype c = NFloat ->
+  (ii = true \/ forall k, In k (fnames m) -> starts_underscore k = false) ->
+  (cstrict c = true -> st = false /\ it = false) ->
+  (forall k, In k (fnames m) -> mem_s k init_params = false) ->
+  (forall k s, In k (fnames m) -> assoc_s k (fvars m) = Some s ->
+     sdt s <> NObj /\ forallb float_exact (scells s) = true) ->
+  exists t m', model_to_table st it ii m = TOk t /\ from_table c t = TOk m' /\
+    splabels (fspan m') = splabels (fspan m) /\ fnames m' = fnames m /\
+    (forall k s, In k (fnames m) -> assoc_s k (fvars m) = Some s ->
+                 assoc_s k (fvars m') = Some (mkSeries NFloat (map to_float_exact (scells s)))).
+Proof.
+  intros W H S Hc Hd Hii Hstrict Hparams Htyped.
+  assert (Hall : export_names ii m = fnames m).
+  { unfold export_names. destruct Hii as [->|Hii]; [reflexivity|]. destruct ii; [reflexivity|].
+    apply filter_all_id. intros x Hx. rewrite (Hii x Hx). reflexivity. }
+  assert (Hser : forall k, In k (fnames m) -> exists s, assoc_s k (fvars m) = Some s /\ the_series m k = s).
+  { intros k Hk. destruct (wf_getvar _ _ _ W Hk) as [s [Hg [Hs _]]]. exists s. split; [|assumption].
+    rewrite getvar_name in Hg; [assumption| |]; intros ->; [apply (wf_nostatus _ _ W Hk)|apply (wf_noiter _ _ W Hk)]. }
+  eexists. eexists. split; [apply model_to_table_spec; eassumption|]. split.
+  - apply (from_to_map st it ii m ix c to_float_exact); try assumption.
+    intros k Hk. destruct (Hser k Hk) as [s [Hs ->]]. destruct (Htyped k s Hk Hs) as [T C]. split; [assumption|].
+    apply Forall_forall. intros x Hx. rewrite Hd. apply np_cast_float_exact. rewrite forallb_forall in C. apply C. assumption.
+  - unfold fresh_model. cbn [fspan fnames fvars].
+    pose proof (pd_index_stable _ _ H S) as Hl.
+    split.
+    { unfold span_of_index. destruct (is_time_index (ikd ix)); cbn [splabels]; assumption. }
+    split; [reflexivity|].
+    intros k s Hk Hs. destruct (Hser k Hk) as [s' [Hs' Hts]]. rewrite Hs in Hs'. injection Hs' as Ess. rewrite <- Ess in Hts.
+    assert (G : forall names, In k names ->
+                assoc_s k (map (fun k0 => (k0, mkSeries (cdtype c) (map to_float_exact (scells (the_series m k0))))) names)
+                = Some (mkSeries (cdtype c) (map to_float_exact (scells (the_series m k))))).
+    { induction names as [|a r IH]; intros Hin; [destruct Hin|]. cbn [map assoc_s].
+      destruct (String.eqb k a) eqn:E.
+      - apply String.eqb_eq in E. subst. reflexivity.
+      - destruct Hin as [->|Hin]; [rewrite String.eqb_refl in E; discriminate|]. apply IH; assumption. }
+    rewrite (G (fnames m) Hk), Hts, Hd. reflexivity.
+Qed.
+
+(* ------------------------------------------------------------------ shape of symbols_to_dataframe; errors of dataframe_to_symbols *)
+Lemma symbols_to_table_shape s r :
+  sym_wf (s :: r) = true ->
+  exists d1 d2 d3 d4 d5 d6 nm lg ld eq cd,
+    symbols_to_table (s :: r)
+    = TOk (mkTable (mkIndex KRange PInt64 (map (fun i => CInt (Z.of_nat i)) (seq 0 (length (s :: r)))))
+             [mkCol "name" d1 nm; mkCol "type" d2 (map (fun x => CInt (type_value (stype x))) (s :: r));
+              mkCol "lags" d3 lg; mkCol "leads" d4 ld; mkCol "equation" d5 eq; mkCol "code" d6 cd]) /\
+    map convert_to_str_or_none nm = map sname (s :: r) /\
+    map convert_to_int_or_none lg = map (fun x => TOk (slags x)) (s :: r) /\
+    map convert_to_int_or_none ld = map (fun x => TOk (sleads x)) (s :: r) /\
+    map convert_to_str_or_none eq = map sequation (s :: r) /\
+    map convert_to_str_or_none cd = map scode (s :: r).
+Proof.
+  intros W. unfold symbols_to_table.
+  set (ss := s :: r) in *. unfold sym_wf in W. apply andb_true_iff in W as [Wl Wd].
+  destruct (idx_column "lags" (slags s) (map slags r) Wl) as [lg0 [d3 [lg [L1 [L2 L3]]]]].
+  destruct (idx_column "leads" (sleads s) (map sleads r) Wd) as [ld0 [d4 [ld [D1 [D2 D3]]]]].
+  destruct (ostr_column "name" (sname s) (map sname r)) as [d1 [nm [N1 N2]]].
+  destruct (ostr_column "equation" (sequation s) (map sequation r)) as [d5 [eq [Q1 Q2]]].
+  destruct (ostr_column "code" (scode s) (map scode r)) as [d6 [cd [K1 K2]]].
+  destruct (type_column s r) as [d2 T1].
+  exists d1, d2, d3, d4, d5, d6, nm, lg, ld, eq, cd.
+  change (map slags ss) with (slags s :: map slags r). change (map sleads ss) with (sleads s :: map sleads r).
+  rewrite L1, D1.
+  rewrite <- (map_map sname cell_of_ostr ss), <- (map_map sequation cell_of_ostr ss), <- (map_map scode cell_of_ostr ss).
+  change (map sname ss) with (sname s :: map sname r). change (map sequation ss) with (sequation s :: map sequation r).
+  change (map scode ss) with (scode s :: map scode r).
+  rewrite N1, Q1, K1, L2, D2. unfold ss at 1. rewrite T1.
+  split; [reflexivity|]. split; [exact N2|].
+  split; [rewrite L3; unfold ss; cbn [map]; rewrite map_map; reflexivity|].
+  split; [rewrite D3; unfold ss; cbn [map]; rewrite map_map; reflexivity|].
+  split; [exact Q2|exact K2].
+Qed.
+
+Definition sym_exn (e : exn) : bool :=
+  match e with KeyError | TypeError | ValueError | OverflowError => true | _ => false end.
+
+Lemma rows_to_symbols_errors nm : forall ty lg ld eq cd e,
+  rows_to_symbols nm ty lg ld eq cd = TErr e -> sym_exn e = true.
+Proof.
+  induction nm as [|a nm IH]; intros ty lg ld eq cd e.
+  - destruct ty, lg, ld, eq, cd; cbn [rows_to_symbols]; discriminate.
+  - destruct ty as [|b ty], lg as [|c lg], ld as [|d ld], eq as [|x eq], cd as [|f cd]; cbn [rows_to_symbols]; try discriminate.
+    unfold symbol_of_row.
+    destruct (type_of_cell b) as [t|e1|] eqn:T; cbn [tbind]; [| |discriminate].
+    2:{ intros H. inversion H; subst.
+        destruct b as [|[]| | | | | |]; cbn [type_of_cell] in T;
+          repeat match type of T with context [match ?x with _ => _ end] => destruct x end; inversion T; reflexivity. }
+    destruct (convert_to_int_or_none c) as [l1|e1|] eqn:C1; cbn [tbind]; [| |discriminate].
+    2:{ intros H. inversion H; subst.
+        destruct c as [|[]| | | | | |]; cbn [convert_to_int_or_none Z_of_f64] in C1;
+          repeat match type of C1 with context [if ?x then _ else _] => destruct x end; inversion C1; reflexivity. }
+    destruct (convert_to_int_or_none d) as [l2|e1|] eqn:C2; cbn [tbind]; [| |discriminate].
+    2:{ intros H. inversion H; subst.
+        destruct d as [|[]| | | | | |]; cbn [convert_to_int_or_none Z_of_f64] in C2;
+          repeat match type of C2 with context [if ?x then _ else _] => destruct x end; inversion C2; reflexivity. }
+    destruct (rows_to_symbols nm ty lg ld eq cd) as [rs|e1|] eqn:R; cbn [tbind]; [discriminate| |discriminate].
+    intros H. inversion H; subst. apply (IH _ _ _ _ _ _ R).
+Qed.
+
+Lemma table_to_symbols_errors t e : table_to_symbols t = TErr e -> sym_exn e = true.
+Proof.
+  unfold table_to_symbols. destruct (ilabels (tindex t)); [discriminate|].
+  destruct (find_col "type" (tcols t)); [|intros H; inversion H; reflexivity].
+  destruct (find_col "lags" (tcols t)); [|intros H; inversion H; reflexivity].
+  destruct (find_col "leads" (tcols t)); [|intros H; inversion H; reflexivity].
+  destruct (find_col "name" (tcols t)); [|intros H; inversion H; reflexivity].
+  destruct (find_col "equation" (tcols t)); [|intros H; inversion H; reflexivity].
+  destruct (find_col "code" (tcols t)); [|intros H; inversion H; reflexivity].
+  destruct (existsb _ (tcols t)); [intros H; inversion H; reflexivity|].
+  apply rows_to_symbols_errors.
+Qed.
+
+(* ------------------------------------------------------------------ VectorContainer.to_dataframe *)
+Lemma container_to_table_spec sp vars ix :
+  pd_index sp = Some ix -> (forall k s, In (k, s) vars -> length (scells s) = length (splabels sp)) ->
+  container_to_table sp vars = TOk (mkTable ix (map col_of vars)) /\
+  map pcname (map col_of vars) = map fst vars /\
+  length (ilabels ix) = length (splabels sp) /\
+  (forall k s, In (k, s) vars -> sdt s <> NObj -> In (mkCol k (pdt_of_ndt (sdt s)) (scells s)) (map col_of vars)).
+Proof.
+  intros Hix Hlen. pose proof (pd_index_length _ _ Hix) as Hn. unfold container_to_table. rewrite Hix.
+  assert (E : forallb (fun kv : string * series => Nat.eqb (length (scells (snd kv))) (length (ilabels ix))) vars = true).
+  { apply forallb_forall. intros [k s] H. cbn [snd]. apply Nat.eqb_eq. rewrite Hn. apply (Hlen k s H). }
+  rewrite E. cbn [negb]. split; [reflexivity|]. split.
+  - clear. induction vars as [|[k s] r IH]; [reflexivity|]. cbn [map fst]. rewrite col_of_name, IH. reflexivity.
+  - split; [assumption|]. intros k s H T. apply in_map_iff. exists (k, s). split; [apply col_of_typed; assumption|assumption].
 Qed.
